@@ -44,6 +44,7 @@
 pthread_once_t       snoopy_tsrm_init_onceControl = PTHREAD_ONCE_INIT;
 pthread_mutex_t      snoopy_tsrm_threadRepo_mutex;
 pthread_mutexattr_t  snoopy_tsrm_threadRepo_mutexAttr;
+pthread_mutex_t      snoopy_tsrm_forkUnsafeLibc_mutex = PTHREAD_MUTEX_INITIALIZER;
 list_t               snoopy_tsrm_threadRepo_data = {
     .first = NULL,
     .last  = NULL,
@@ -189,6 +190,10 @@ void snoopy_tsrm_init ()
  *     the parent, and in the child start with a fresh mutex and a repository
  *     that contains no entries of threads that do not exist there.
  *
+ *     The same goes for the C library's own locks that fork() does not reset
+ *     (see snoopy_tsrm_forkUnsafeLibcCall_enter() below): fork() waits until
+ *     no thread is inside such a call on behalf of this library.
+ *
  * Params:
  *     (none)
  *
@@ -198,10 +203,12 @@ void snoopy_tsrm_init ()
 void snoopy_tsrm_atfork_prepare ()
 {
     pthread_mutex_lock(&snoopy_tsrm_threadRepo_mutex);
+    pthread_mutex_lock(&snoopy_tsrm_forkUnsafeLibc_mutex);
 }
 
 void snoopy_tsrm_atfork_parent ()
 {
+    pthread_mutex_unlock(&snoopy_tsrm_forkUnsafeLibc_mutex);
     pthread_mutex_unlock(&snoopy_tsrm_threadRepo_mutex);
 }
 
@@ -212,8 +219,9 @@ void snoopy_tsrm_atfork_child ()
     listNode_t                 *nextNode;
     snoopy_tsrm_threadData_t   *tData;
 
-    // The mutex is owned by a thread of the parent process, unlocking it here is not possible - start afresh
+    // The mutexes are owned by a thread of the parent process, unlocking them here is not possible - start afresh
     pthread_mutex_init(&snoopy_tsrm_threadRepo_mutex, &snoopy_tsrm_threadRepo_mutexAttr);
+    pthread_mutex_init(&snoopy_tsrm_forkUnsafeLibc_mutex, NULL);
 
     // Drop repo entries of threads that only exist in the parent
     myThreadId = snoopy_tsrm_getCurrentThreadId();
@@ -229,6 +237,37 @@ void snoopy_tsrm_atfork_child ()
         }
         curNode = nextNode;
     }
+}
+
+
+
+/*
+ * snoopy_tsrm_forkUnsafeLibcCall_(enter|leave)
+ *
+ * Description:
+ *     Bracket a call to a C library function that holds a library-internal
+ *     lock which fork() does not reset in the child (getlogin_r(), setutent(),
+ *     getutline_r(), endutent(): utmp lock; localtime_r(), strftime(): time
+ *     zone lock). If another thread fork()ed while this thread is inside
+ *     such a function, the child would inherit the lock in locked state and
+ *     block forever in its own exec() call.
+ *     The fork() handlers above take the same mutex, so fork() cannot happen
+ *     while a thread is between enter() and leave().
+ *
+ * Params:
+ *     (none)
+ *
+ * Return:
+ *     void
+ */
+void snoopy_tsrm_forkUnsafeLibcCall_enter ()
+{
+    pthread_mutex_lock(&snoopy_tsrm_forkUnsafeLibc_mutex);
+}
+
+void snoopy_tsrm_forkUnsafeLibcCall_leave ()
+{
+    pthread_mutex_unlock(&snoopy_tsrm_forkUnsafeLibc_mutex);
 }
 
 
